@@ -50,6 +50,8 @@ pub struct SaveState {
     pub i: u8,
     pub latch: u8,
     pub sp: u16,
+    /// a further paging write issued after `latch` (ignored by the machine when `latch` locked paging)
+    pub later_write: Option<u8>,
 }
 
 #[derive(Clone, Copy, Debug, PartialEq, Eq)]
@@ -134,6 +136,9 @@ fn build_saver(s: &SaveState) -> Emu {
     rig::poke(&mut e, PROG, OBSERVER);
     if s.m128 {
         rig::cpu_out(&mut e, OUTCODE, 0x7FFD, s.latch);
+        if let Some(w) = s.later_write {
+            rig::cpu_out(&mut e, OUTCODE, 0x7FFD, w);
+        }
     }
     rig::cpu_out(&mut e, OUTCODE, 0x00FE, s.border);
     // keep interrupts out of the lock-step continuation: place the frame clock after the INT pulse
@@ -245,7 +250,7 @@ fn fill_ram_partial(e: &mut Emu, _m128: bool) {
 }
 
 fn state_json(s: &SaveState, rx: Receiver) -> serde_json::Value {
-    json!({"kind":"saveload","m128":s.m128,"pattern":s.pattern,"im":s.im,"iff2":s.iff2,"border":s.border,"r":s.r,"i":s.i,"latch":s.latch,"sp":s.sp,"receiver":format!("{:?}", rx)})
+    json!({"kind":"saveload","m128":s.m128,"pattern":s.pattern,"im":s.im,"iff2":s.iff2,"border":s.border,"r":s.r,"i":s.i,"latch":s.latch,"sp":s.sp,"later_write":s.later_write,"receiver":format!("{:?}", rx)})
 }
 
 pub fn run_case(ctx: &Ctx, s: &SaveState, rx: Receiver, verbose: bool) -> u64 {
@@ -481,7 +486,11 @@ pub fn states(quick: bool) -> Vec<SaveState> {
                     c
                 };
                 for (pattern, im, iff2, border, r, i) in combos {
-                    v.push(SaveState { m128, pattern, im, iff2, border, r, i, latch: *latch, sp: *sp });
+                    v.push(SaveState { m128, pattern, im, iff2, border, r, i, latch: *latch, sp: *sp, later_write: None });
+                    if m128 && j == 0 {
+                        // a later paging write: ignored if the latch is locked, effective otherwise
+                        v.push(SaveState { m128, pattern, im, iff2, border, r, i, latch: *latch, sp: *sp, later_write: Some(latch ^ 0x17) });
+                    }
                 }
             }
         }
@@ -516,6 +525,7 @@ pub fn run(tier: Tier, seed: u64, replay: Option<String>) -> i32 {
             i: c["i"].as_u64().unwrap() as u8,
             latch: c["latch"].as_u64().unwrap() as u8,
             sp: c["sp"].as_u64().unwrap() as u16,
+            later_write: c["later_write"].as_u64().map(|x| x as u8),
         };
         let rx = RECEIVERS.iter().find(|r| format!("{:?}", r) == c["receiver"].as_str().unwrap_or("")).copied().unwrap_or(Receiver::Fresh);
         println!("replay: {:?} into {:?}", s, rx);
@@ -528,7 +538,7 @@ pub fn run(tier: Tier, seed: u64, replay: Option<String>) -> i32 {
     let jobs: Vec<(usize, Receiver)> = (0..sts.len()).flat_map(|i| RECEIVERS.iter().map(move |r| (i, *r))).collect();
     par_for(jobs.len(), 2, |j| {
         let (i, rx) = jobs[j];
-        let d = run_case(&ctx, &sts[i], rx, false);
+        let d = ctx.guard("save/load case", state_json(&sts[i], rx), || run_case(&ctx, &sts[i], rx, false)).unwrap_or(0);
         ctx.outcome(d);
         ctx.add_eval(1);
     });
